@@ -148,6 +148,11 @@ SwitchOneIsIndependent == Cfg.hmm =>
 SwitchZeroIsOnePatch == Cfg.hmm =>
     HmmLik([Cfg EXCEPT !.switch = Zero], HCols) =
         RSumSet(Patches, [p \in Patches |-> RMul(PatchProb(Cfg, p), RProdSeq([i \in 1..Len(HCols) |-> Emis(Cfg, HCols[i], p)]))])
+(* the classes of a configuration share each edge's LENGTH: mult[b] * mu_b * n1_b = qpow * mu_edge * n1_edge *)
+BinLengthsConsistent == (Cfg.hmm /\ Cfg.bininst # <<>>) =>
+    \A n \in Nodes(Cfg) \ {1} : \A b \in 1..NBins(Cfg) :
+        RMul(R(Cfg.mult[b] * PInstances[Cfg.bininst[b]].n1, 1), Mu(PInstances[Cfg.bininst[b]]))
+          = RMul(R(Cfg.qpow * PInstances[Cfg.inst[n]].n1, 1), Mu(PInstances[Cfg.inst[n]]))
 (* all alignments of two canonical columns have total probability one *)
 HmmSumsToOne == (Cfg.hmm /\ Cfg.normalise) =>
     LET CC == CanonCols(Cfg)
